@@ -11,6 +11,7 @@ COMMON_TRUST = [
 
 CHECKS = {
     'C10': {
+        'grid': {'sets': ['c10'], 'bound': 'FollowFileIterator over a file that a writer thread appends to: 7 contents (ASCII, multi-byte, empty lines, CRLF, 20000-byte lines, a tail completed later) x chunkings (single bytes, 2, 3, 5, 7, 4096, cuts around every newline and inside every multi-byte character) x reader buffers of 1, 2, 3, 16, 8192 bytes x writer pauses; start position through FollowFileExecutor with and without --head on 3 initial contents (about 1290 cases)'},
         'verus_units': ['follow', 'executor'],
         'clause_prefixes': ['c10', 'next.', 'new.', 'lemma.'],
         'technique': 'contract-based deductive verification (Verus) of the extracted FollowFileIterator, reader modelled by a nondeterministic callee contract, history lemma over the contract',
